@@ -29,6 +29,20 @@
     switches are not decorative, and `registry_fixed_example` / `required_fixed_example` evaluate the
     same histories under today's configuration.
 
+  * NESTED effects are in the model (Sem/World.lean): mapper / simplicity cache fills of referenced classes,
+    `create_serializer` generating the serializers of referenced FastSerializable classes, serializer flags
+    (`serialize_none`, `compact`) bound at generation, late lookup of the referenced class's `serialize`.
+    An explicit `create_serializer(cls, flags)` is CONFIGURATION of `cls` and stays in the sub-history of a
+    class set containing `cls` (`sliceK`); the view of a class includes the serializers its referenced
+    classes' instances are serialized with (`refSers`).
+  * OPEN FINDING kept in the statement: `_verify_is_fast_serializable` looks `serialize` up through the MRO, so a
+    FastSerializable owner of a class `B` whose own serializer cannot be generated becomes instantiable once a
+    base class of `B` was used (`mro_serializer_breaks_frame`, kernel-checked on the model; reproduced on the
+    real code by the directed histories of the world suite).  `C15_statement` is therefore FALSE of today's
+    tree (`C15_statement_fails_today`); `C15_today_partial` proves it outside `Excluded`, whose only
+    non-empty part for today's table is exactly that region (`quietStep`: a FastSerializable class referring to
+    a class whose serializer cannot be generated, or an explicit create_serializer on such an owner).
+
   The claim is PARTIAL: only state the extractor sees is in the model; the fresh-interpreter
   comparison of the `world` suite is the backstop.
 -/
@@ -46,14 +60,31 @@ def C15_statement (cfg : Config) : Prop :=
   ∀ (T : ClassId → Bool) (h : List WorldOp) (c : ClassId), closed T h = true → T c = true →
     view cfg (runW cfg World.initial h) c = view cfg (runW cfg World.initial (slice T h)) c
 
+/-- C15 outside the region `Excluded cfg` in which the configuration's unsafe registries — and the open finding
+    about MRO-resolved serializers — fire -/
+def C15_partial (cfg : Config) : Prop :=
+  ∀ (T : ClassId → Bool) (h : List WorldOp) (c : ClassId), Excluded cfg h → closed T h = true → T c = true →
+    view cfg (runW cfg World.initial h) c = view cfg (runW cfg World.initial (slice T h)) c
+
 /-- the frame theorem: outside the known-finding region the view of a class after ANY history equals
     its view after the sub-history it depends on -/
 theorem frame (cfg : Config) (hc : cfg.cachesById = true) (T : ClassId → Bool) (h : List WorldOp)
     (hx : Excluded cfg h) (hcl : closed T h = true) (c : ClassId) (hT : T c = true) :
     view cfg (runW cfg World.initial h) c = view cfg (runW cfg World.initial (slice T h)) c := by
-  have s := sim_run hc (W := wrapsOf h) hx.1 T h World.initial World.initial (fun _ hq => hq) hcl hx.2
-    (sim_initial cfg T (wrapsOf h))
-  exact view_eq_of_lookS hc s.good s.good' s.flags (s.stab c hT)
+  have s := sim_run hc (W := wrapsOf h) hx.1 T h [] World.initial World.initial (fun _ hq => hq) hcl hx.2
+    (sim_initial cfg T (wrapsOf h)) (by intro d e _ _ hl; simp [World.initial, alookup] at hl)
+  exact view_eq_of_lookS hc s.good s.good' s.flags (s.stab c hT) (fun e hl => s.wf c e hT hl)
+    (fun e hl p hp => by
+      have hf : ∃ f ∈ e.core.fields, f.kind = .ref p.2 := by
+        unfold refFields at hp
+        obtain ⟨f, hf, hfk⟩ := List.mem_filterMap.mp hp
+        cases hk : f.kind with
+        | ref b => rw [hk] at hfk; simp only [Option.some.injEq] at hfk; subst hfk; exact ⟨f, hf, hk⟩
+        | prim t => rw [hk] at hfk; simp at hfk
+        | wrap n t => rw [hk] at hfk; simp at hfk
+        | refs cs => rw [hk] at hfk; simp at hfk
+      obtain ⟨f, hf, hk⟩ := hf
+      exact s.stab p.2 (s.tcl c e hT hl f hf p.2 (by simp [hk, kindRefs])))
 
 /-- the literal form for a class that reads no other class, in a history without default toggles:
     defined anywhere in any history, it behaves as when it is the only thing ever defined -/
@@ -70,19 +101,48 @@ theorem frame_alone (cfg : Config) (hc : cfg.cachesById = true) (h : List WorldO
 /-- using a class (construct, serialize, deserialize, structure_to_schema, create_serializer, trusted
     deserialization) in a coherent world, outside the finding region, changes the view of NO class -/
 theorem use_changes_no_view (cfg : Config) (hc : cfg.cachesById = true) (W : List (String × TypeId))
-    (w : World) (g : Good cfg W w) (op : WorldOp) (huse : keepOp (fun _ => true) op = false)
-    (hq : quietStep cfg w op = true) (d : ClassId) :
+    (w : World) (g : Good cfg W w) (op : WorldOp) (huse : plainUse op = true)
+    (hq : quietStep cfg w op = true) (d : ClassId)
+    (hwf : ∀ e, alookup d w.classes = some e → e.core.src.fast = true → refsCreatable e = true) :
     view cfg (stepW cfg w op).1 d = view cfg w d := by
   have p := pres_step_use hc g op huse hq
-  exact view_eq_of_lookS hc p.1 g p.2.2 (p.2.1 d)
+  refine view_eq_of_lookS hc p.1 g p.2.2 (p.2.1 d) ?_ (fun _ _ q _ => p.2.1 q.2)
+  intro e2 hl2 hf
+  obtain ⟨e, hl, hcore⟩ := core_of_lookS (p.2.1 d) hl2
+  have := hwf e hl (by rw [← hcore]; exact hf)
+  simpa [refsCreatable, hcore] using this
+
+/-- an explicit `create_serializer(c, fl)` (the one operation that CONFIGURES a class) changes the view of no
+    class other than `c` and the classes that refer to `c`; re-generating with the flags `c` already has changes
+    no view at all (`created_pres`) -/
+theorem create_serializer_frame (cfg : Config) (hc : cfg.cachesById = true) (W : List (String × TypeId))
+    (w : World) (g : Good cfg W w) (c : ClassId) (fl : SerFlags) (d : ClassId) (hd : c ≠ d)
+    (hwf : ∀ e, alookup d w.classes = some e → e.core.src.fast = true → refsCreatable e = true)
+    (hnoref : ∀ e, alookup d w.classes = some e → ∀ p ∈ refFields e.core.fields, c ≠ p.2) :
+    view cfg (stepW cfg w (.createSerializer c fl)).1 d = view cfg w d := by
+  have cl := created_step hc g c fl
+  refine view_eq_of_lookS hc cl.good g cl.flags (cl.other d hd) ?_ ?_
+  · intro e2 hl2 hf
+    obtain ⟨e, hl, hcore⟩ := created_core cl d e2 hl2
+    have := hwf e hl (by rw [← hcore]; exact hf)
+    simpa [refsCreatable, hcore] using this
+  · intro e2 hl2 p hp
+    obtain ⟨e, hl, hcore⟩ := created_core cl d e2 hl2
+    exact cl.other p.2 (hnoref e hl p (by rw [← hcore]; exact hp))
 
 /-- coherence ("every cache entry equals the function it memoises, every installed serializer is the one
     a fresh create_serializer would build, every implicit wrapper checks the class it was made for") is
     preserved by every use operation -/
 theorem use_preserves_coherence (cfg : Config) (hc : cfg.cachesById = true) (W : List (String × TypeId))
-    (w : World) (g : Good cfg W w) (op : WorldOp) (huse : keepOp (fun _ => true) op = false)
+    (w : World) (g : Good cfg W w) (op : WorldOp) (huse : plainUse op = true)
     (hq : quietStep cfg w op = true) : Good cfg W (stepW cfg w op).1 :=
   (pres_step_use hc g op huse hq).1
+
+/-- … and by an explicit `create_serializer`, whatever its flags and whether or not it gets through -/
+theorem create_serializer_preserves_coherence (cfg : Config) (hc : cfg.cachesById = true)
+    (W : List (String × TypeId)) (w : World) (g : Good cfg W w) (c : ClassId) (fl : SerFlags) :
+    Good cfg W (stepW cfg w (.createSerializer c fl)).1 :=
+  (created_step hc g c fl).good
 
 /-- … and by every definition whose implicit wrappers are among `W` -/
 theorem define_preserves_coherence (cfg : Config) (W : List (String × TypeId))
@@ -120,32 +180,47 @@ theorem safe_config_of_safe_tables (rows : List RegistryRec) (hs : SafeTables ro
     (configOf rows).safe = true := by
   simp [Config.safe, configOf, any_unsafe_false hs]
 
-theorem quietRun_of_no_schema_write (cfg : Config) (hs : cfg.schemaWritesRequired = false) :
-    ∀ (h : List WorldOp) (w : World), quietRun cfg w h = true
-  | [], _ => rfl
-  | op :: h, w => by
-    simp only [quietRun, Bool.and_eq_true]
-    refine ⟨?_, quietRun_of_no_schema_write cfg hs h _⟩
-    cases op <;> simp [quietStep, hs]
+/-- the part of the excluded region that does not depend on the table: the open finding about serializers
+    resolved through the MRO (see `quietStep`) -/
+def fastRefsQuiet (cfg : Config) (w : World) : WorldOp → Bool
+  | .define c src => quietStep cfg w (.define c src)
+  | .createSerializer c fl => quietStep cfg w (.createSerializer c fl)
+  | _ => true
 
-theorem excluded_of_safe (cfg : Config) (hs : cfg.safe = true) (h : List WorldOp) : Excluded cfg h := by
+def fastRefsRun (cfg : Config) : World → List WorldOp → Bool
+  | _, [] => true
+  | w, op :: h => fastRefsQuiet cfg w op && fastRefsRun cfg (stepW cfg w op).1 h
+
+theorem quietRun_of_no_schema_write (cfg : Config) (hs : cfg.schemaWritesRequired = false) :
+    ∀ (h : List WorldOp) (w : World), fastRefsRun cfg w h = true → quietRun cfg w h = true
+  | [], _, _ => rfl
+  | op :: h, w, hr => by
+    simp only [fastRefsRun, Bool.and_eq_true] at hr
+    simp only [quietRun, Bool.and_eq_true]
+    refine ⟨?_, quietRun_of_no_schema_write cfg hs h _ hr.2⟩
+    cases op <;> first | exact hr.1 | simp [quietStep, hs]
+
+/-- for a configuration whose switches are all off the excluded region is exactly the region of the open
+    finding: a FastSerializable class referring to a class whose serializer cannot be generated -/
+theorem excluded_of_safe (cfg : Config) (hs : cfg.safe = true) (h : List WorldOp)
+    (hr : fastRefsRun cfg World.initial h = true) : Excluded cfg h := by
   cases cfg with
   | mk a b b2 c d e =>
     cases a <;> cases d <;> simp [Config.safe] at hs
-    exact ⟨by simp, quietRun_of_no_schema_write _ rfl h World.initial⟩
+    exact ⟨by simp, quietRun_of_no_schema_write _ rfl h World.initial hr⟩
 
 theorem cachesById_of_safe (cfg : Config) (hs : cfg.safe = true) : cfg.cachesById = true := by
   cases cfg with
   | mk a b b2 c d e =>
     cases a <;> cases b <;> cases b2 <;> cases c <;> cases d <;> cases e <;> simp [Config.safe, Config.cachesById] at *
 
-/-- C15 at full strength holds for every configuration whose switches are all off … -/
-theorem C15_of_safe_config (cfg : Config) (hs : cfg.safe = true) : C15_statement cfg :=
-  fun T h c hcl hT => frame cfg (cachesById_of_safe cfg hs) T h (excluded_of_safe cfg hs h) hcl c hT
+/-- C15 holds, outside the excluded region, for every configuration whose switches are all off … -/
+theorem C15_of_safe_config (cfg : Config) (hs : cfg.safe = true) : C15_partial cfg :=
+  fun T h c hx hcl hT => frame cfg (cachesById_of_safe cfg hs) T h hx hcl c hT
 
 /-- … in particular for the code whose registry table has only safe rows: identity-keyed caches, no
     write onto another class, no in-place write to a class's definition attributes -/
-theorem frame_safe_tables (rows : List RegistryRec) (hs : SafeTables rows) : C15_statement (configOf rows) :=
+theorem frame_safe_tables (rows : List RegistryRec) (hs : SafeTables rows) : C15_partial (configOf rows) :=
   C15_of_safe_config _ (safe_config_of_safe_tables rows hs)
 
 /-! ### the current tree -/
@@ -167,29 +242,34 @@ theorem unsafe_rows_are_outside_model :
 theorem tables_ok : ∀ r ∈ Generated.registries, r.safe = true ∨ r.findingKey ∈ Generated.knownFindingKeys := by
   decide +kernel
 
-/-- C15 at full strength for the current tree: for every history, every dependency-closed class set and
-    every class in it, the class's view after the history is its view when defined alone — no exclusion -/
-theorem C15_today : C15_statement (configOf Generated.registries) :=
+/-- C15 for the current tree: for every history outside the region of the open finding, every
+    dependency-closed class set and every class in it, the class's view after the history is its view when
+    defined alone (with its own serializer configurations) -/
+theorem C15_today_partial : C15_partial (configOf Generated.registries) :=
   C15_of_safe_config _ current_config_safe
 
-/-- the region excluded by the general `frame` theorem is empty for the current tree -/
-theorem excluded_today (h : List WorldOp) : Excluded (configOf Generated.registries) h :=
-  excluded_of_safe _ current_config_safe h
+/-- for the current tree the excluded region is exactly the region of the open finding -/
+theorem excluded_today (h : List WorldOp)
+    (hr : fastRefsRun (configOf Generated.registries) World.initial h = true) :
+    Excluded (configOf Generated.registries) h :=
+  excluded_of_safe _ current_config_safe h hr
 
-/-- using any class in a coherent world of the current tree changes the view of no class (no quietness
-    side condition any more) -/
+/-- using any class in a coherent world of the current tree (construct, serialize, deserialize,
+    structure_to_schema, trusted deserialization — every operation that does not configure a serializer)
+    changes the view of no class -/
 theorem use_changes_no_view_today (W : List (String × TypeId)) (w : World)
-    (g : Good (configOf Generated.registries) W w) (op : WorldOp) (huse : keepOp (fun _ => true) op = false)
-    (d : ClassId) :
+    (g : Good (configOf Generated.registries) W w) (op : WorldOp) (huse : plainUse op = true)
+    (d : ClassId)
+    (hwf : ∀ e, alookup d w.classes = some e → e.core.src.fast = true → refsCreatable e = true) :
     view (configOf Generated.registries) (stepW (configOf Generated.registries) w op).1 d
       = view (configOf Generated.registries) w d := by
   have hs := current_config_safe
   have hq : quietStep (configOf Generated.registries) w op = true := by
-    have := quietRun_of_no_schema_write (configOf Generated.registries)
-      (by cases hc : configOf Generated.registries with
-          | mk a b b2 c d e => rw [hc] at hs; cases d <;> simp_all [Config.safe]) [op] w
-    simpa [quietRun] using this
-  exact use_changes_no_view _ (cachesById_of_safe _ hs) W w g op huse hq d
+    have hsw : (configOf Generated.registries).schemaWritesRequired = false := by
+      cases hc : configOf Generated.registries with
+      | mk a b b2 c d e => rw [hc] at hs; cases d <;> simp_all [Config.safe]
+    cases op <;> first | (simp [plainUse] at huse; done) | rfl | simp [quietStep, hsw]
+  exact use_changes_no_view _ (cachesById_of_safe _ hs) W w g op huse hq d hwf
 
 /-- switch-wise implication: every finding switch that is on in `a` is on in `b` -/
 def Config.le (a b : Config) : Bool :=
@@ -293,7 +373,7 @@ def clsR : ClassSrc := ⟨"Box", none, [fld "o" (.ref 1), fld "u" (.wrap "User" 
     worlds differ -/
 def hEx : List WorldOp :=
   [.define 0 clsP, .construct 0 [("id", .prim 0 true), ("who", .inst 1)], .setDefault .addProps false,
-   .define 1 clsQ, .serialize 0 [("id", .prim 0 true), ("who", .inst 1)] false, .createSerializer 1, .toSchema 0,
+   .define 1 clsQ, .serialize 0 [("id", .prim 0 true), ("who", .inst 1)] false, .createSerializer 1 .plain, .toSchema 0,
    .define 5 clsB, .toSchema 5, .trustedDeserialize 1 [], .setDefault .addProps true, .define 2 clsR,
    .deserialize 2 [("o", .struct 1), ("u", .inst 2)], .toSchema 1, .toSchema 2, .define 6 clsD]
 
@@ -345,5 +425,90 @@ theorem refs_example :
           [.define 0 clsS, .define 1 clsA, .define 2 clsLine, .serialize 2 [("parts", .structs [0, 1])] true, .toSchema 2]) 0
       = view (configOf Generated.registries) (runW (configOf Generated.registries) World.initial [.define 0 clsS]) 0 := by
   decide +kernel
+
+/-! ### nested fast serialization: serializers of referenced classes, flags, and the open finding -/
+
+def ffld (name : String) (kind : FieldKind) (fast : Bool := true) (opt : Bool := false) (arr : Bool := false) : FieldSpec :=
+  { name := name, kind := kind, hasDefault := false, serKey := name, camelKey := name, camelName := name,
+    fastOk := fast, trustedOk := true, schemaOk := true, inlines := 0, arr := arr, optional := opt }
+
+def clsAcct : ClassSrc := ⟨"Account", none, [ffld "id" (.prim 0)], true, none⟩
+def clsPrem : ClassSrc := ⟨"Premium", some (.inherit 0), [ffld "level" (.prim 2)], true, none⟩
+def clsOrder : ClassSrc := ⟨"Order", none, [ffld "ref_no" (.prim 2), ffld "account" (.ref 1) true true,
+                                            ffld "items" (.ref 0) true false true], true, none⟩
+
+/-- Account <- Premium, Order refers to Premium (optional) and to Array[Account]; the base class is used, the
+    owner's serializer is generated (which generates Premium's, Account's exists), Premium is then CONFIGURED
+    with `serialize_none`, Order is instantiated without the optional reference -/
+def hNested : List WorldOp :=
+  [.define 0 clsAcct, .define 1 clsPrem, .construct 0 [("id", .prim 0 true)], .define 2 clsOrder,
+   .createSerializer 2 .plain, .createSerializer 1 ⟨true, false⟩,
+   .construct 2 [("ref_no", .prim 2 true), ("items", .noItems)], .toSchema 2]
+
+/-- the nested effects happen (all three classes have their own serializer, the referenced classes' mappers
+    are cached), the owner's view records that Premium instances are serialized with `serialize_none`, and
+    every class behaves as in its own sub-history — in which the configuration of Premium is kept -/
+theorem nested_frame_example :
+    closed (fun d => d ≤ 2) hNested = true
+    ∧ Excluded (configOf Generated.registries) hNested
+    ∧ slice (fun d => d ≤ 2) hNested
+        = [.define 0 clsAcct, .define 1 clsPrem, .define 2 clsOrder, .createSerializer 1 ⟨true, false⟩]
+    ∧ ((runW (configOf Generated.registries) World.initial hNested).classes.map
+          fun p => (p.1, p.2.serializer.map (·.flags))).length = 6
+    ∧ (view (configOf Generated.registries) (runW (configOf Generated.registries) World.initial hNested) 2).map (·.refSers)
+        = some [("account", some ⟨["id", "level"], ⟨true, false⟩⟩), ("items", some ⟨["id"], .plain⟩)]
+    ∧ view (configOf Generated.registries) (runW (configOf Generated.registries) World.initial hNested) 2
+        = view (configOf Generated.registries)
+            (runW (configOf Generated.registries) World.initial (slice (fun d => d ≤ 2) hNested)) 2
+    ∧ view (configOf Generated.registries) (runW (configOf Generated.registries) World.initial hNested) 0
+        = view (configOf Generated.registries)
+            (runW (configOf Generated.registries) World.initial (slice (fun d => d == 0) hNested)) 0
+    ∧ runW (configOf Generated.registries) World.initial hNested
+        ≠ runW (configOf Generated.registries) World.initial (slice (fun d => d ≤ 2) hNested) := by
+  decide +kernel
+
+/-- the serializers `create_serializer(Order)` generates: Premium resolved to the placeholder (Account had not
+    been used), so it is generated first, then Order; Account is not touched because no field path needs it
+    before… it is reached through `items` and generated too -/
+theorem nested_create_example :
+    ((runW (configOf Generated.registries) World.initial
+        [.define 0 clsAcct, .define 1 clsPrem, .define 2 clsOrder, .createSerializer 2 ⟨false, true⟩]).classes.filterMap
+      fun p => p.2.serializer.map fun s => (p.1, s.keys, s.flags))
+      = [(2, ["ref_no", "account", "items"], ⟨false, true⟩), (0, ["id"], .plain), (1, ["id", "level"], .plain)] := by
+  decide +kernel
+
+def clsBad : ClassSrc := ⟨"Gold", some (.inherit 0), [ffld "bad" (.prim 11) false], true, none⟩
+def clsOwner : ClassSrc := ⟨"Order", none, [ffld "n" (.prim 0), ffld "b" (.ref 1) true true], true, none⟩
+
+/-- `Gold(Account)` adds a field `create_serializer` cannot handle; `Order` refers to `Gold` (optional) -/
+def hMro : List WorldOp := [.define 0 clsAcct, .define 1 clsBad, .construct 0 [("id", .prim 0 true)], .define 2 clsOwner]
+
+/-- OPEN FINDING (mro-resolved-serialize-skips-generation:_verify_is_fast_serializable), on the model with
+    TODAY's table: once the base class `Account` was instantiated, `Gold.serialize` resolves (through the MRO)
+    to Account's generated serializer, `create_serializer(Order)` no longer looks at `Gold`, and `Order` can be
+    instantiated; alone, generating Order's serializer tries to generate Gold's and raises -/
+theorem mro_serializer_breaks_frame :
+    closed (fun d => d ≤ 2) hMro = true
+    ∧ (view (configOf Generated.registries) (runW (configOf Generated.registries) World.initial hMro) 2).map (·.instantiable)
+        = some true
+    ∧ (view (configOf Generated.registries)
+        (runW (configOf Generated.registries) World.initial (slice (fun d => d ≤ 2) hMro)) 2).map (·.instantiable)
+        = some false
+    ∧ (stepW (configOf Generated.registries) (runW (configOf Generated.registries) World.initial hMro)
+         (.construct 2 [("n", .prim 0 true)])).2.accepted = true
+    ∧ (stepW (configOf Generated.registries)
+         (runW (configOf Generated.registries) World.initial (slice (fun d => d ≤ 2) hMro))
+         (.construct 2 [("n", .prim 0 true)])).2.accepted = false
+    ∧ ¬ Excluded (configOf Generated.registries) hMro := by
+  decide +kernel
+
+/-- hence the full statement is false of TODAY's tree; `C15_today_partial` is what holds -/
+theorem C15_statement_fails_today : ¬ C15_statement (configOf Generated.registries) := by
+  intro h
+  have h1 := h (fun d => d ≤ 2) hMro 2 mro_serializer_breaks_frame.1 (by decide)
+  have h2 := mro_serializer_breaks_frame.2.1
+  have h3 := mro_serializer_breaks_frame.2.2.1
+  rw [h1, h3] at h2
+  cases h2
 
 end Typedpy.C15
